@@ -50,6 +50,24 @@ def run(ctx):
     cases = nontrivial = runs = 0
     # trace validation of the queue over the Prince grid (same machinery as C01/C02)
     ops, exp, meta = [], [], []
+    # cheap part: trace validation + each-once oracle on many Prince grids (ties between word and mask probabilities)
+    for i in range(ctx.scale(60, 400)):
+        spec = prince_spec(rng)
+        d = common.write_ruleset(os.path.join(common.scratch_dir('rules'), f'prt{i % 10}'), spec)
+        lower = rng.random() < 0.3
+        try:
+            r = corr_pq.run_case(d, {'skip_case': lower, 'folder': 'Prince'}, rng, ncuts=0)
+        except Exception as e:
+            viol.append({'property': 'C17', 'kind': 'load-raised', 'error': repr(e)[:200], 'witness': {'spec': spec}})
+            continue
+        if r:
+            start = len(ops)
+            ops += r['ops']
+            exp += r['expected']
+            meta.append((start, len(ops), spec))
+            cases += 1
+            for v in r['violations']:
+                viol.append(dict(v, property='C17', kind='not-each-once' if v['property'] == 'C02' else v['kind'], witness={'spec': spec, 'all_lower': lower}))
     for i in range(ctx.scale(10, 50)):
         spec = prince_spec(rng)
         name = f"pr{i % 6}"
